@@ -44,10 +44,15 @@ class PosLine(NamedTuple):
                 cache.append(pl)  # noqa: PERF401
             i += len(line)
 
-        n += 1
-        if lines[-1][-1] in {'\r', '\n'}:
+        last = lines[-1]
+        if last[-1] in {'\r', '\n'}:
+            # a trailing line break opens a new, empty line
+            cache.append(PosLine(i, n + 1, 0))
+            n += 2
+        else:
+            # one past the end is still on the last line
+            cache.append(PosLine(i - len(last), n, len(last)))
             n += 1
-        cache.append(PosLine(i, n, 0))
 
         # the range depends on line[-1] ending in a newline
         endrange = range(len(lines), 2 + len(lines))
